@@ -7,7 +7,7 @@ use proc_macro2::TokenStream;
 use quote::{format_ident, quote};
 
 use super::super::conversions::{ConversionContext, determine_conversion};
-use super::super::expr::{IrExprKind, Pattern};
+use super::super::expr::{IrExprKind, Pattern, TypedExpr};
 use super::super::stmt::{AssignTarget, IrStmt, IrStmtKind};
 use super::super::types::IrType;
 use super::super::types::Mutability;
@@ -52,6 +52,16 @@ fn for_body_needs_mut_iteration(pattern: &Pattern, body: &[IrStmt]) -> bool {
                 stmts.iter().any(|s| stmt_mutates_var(s, var))
                     || value.as_ref().is_some_and(|v| expr_contains_mutation(v, var))
             }
+            // `match` / `if` used as a statement are expressions in the IR
+            IrExprKind::Match { arms, .. } => arms.iter().any(|arm| expr_contains_mutation(&arm.body, var)),
+            IrExprKind::If {
+                then_branch,
+                else_branch,
+                ..
+            } => {
+                expr_contains_mutation(then_branch, var)
+                    || else_branch.as_ref().is_some_and(|e| expr_contains_mutation(e, var))
+            }
             _ => false,
         }
     }
@@ -60,6 +70,7 @@ fn for_body_needs_mut_iteration(pattern: &Pattern, body: &[IrStmt]) -> bool {
     fn stmt_mutates_var(stmt: &IrStmt, var: &str) -> bool {
         match &stmt.kind {
             IrStmtKind::Assign { target, .. } => target_mutates_var(target, var),
+            IrStmtKind::Expr(e) => expr_contains_mutation(e, var),
             IrStmtKind::If {
                 then_branch,
                 else_branch,
@@ -83,6 +94,15 @@ fn for_body_needs_mut_iteration(pattern: &Pattern, body: &[IrStmt]) -> bool {
 }
 
 impl<'a> IrEmitter<'a> {
+    /// A variable, or a chain of field accesses rooted at one: iterating it by value would move it out of its owner.
+    fn is_place_expr(expr: &TypedExpr) -> bool {
+        match &expr.kind {
+            IrExprKind::Var { .. } => true,
+            IrExprKind::Field { object, .. } => Self::is_place_expr(object),
+            _ => false,
+        }
+    }
+
     /// Emit a statement as Rust tokens.
     pub(super) fn emit_stmt(&self, stmt: &IrStmt) -> Result<TokenStream, EmitError> {
         match &stmt.kind {
@@ -226,8 +246,8 @@ impl<'a> IrEmitter<'a> {
                         _ => quote! { #iter },
                     },
                     IrType::List(elem_ty) => {
-                        // If it's a variable, borrow it; otherwise use as-is
-                        if let IrExprKind::Var { .. } = &iterable.kind {
+                        // If it's a variable or a field of one (`self.items`, `cfg.rows`), borrow it; otherwise use as-is
+                        if Self::is_place_expr(iterable) {
                             // For primitive types, use .iter().copied() to avoid reference issues
                             match elem_ty.as_ref() {
                                 IrType::Int | IrType::Float | IrType::Bool => {
@@ -247,7 +267,7 @@ impl<'a> IrEmitter<'a> {
                         }
                     }
                     IrType::Set(_) | IrType::Dict(_, _) => {
-                        if let IrExprKind::Var { .. } = &iterable.kind {
+                        if Self::is_place_expr(iterable) {
                             quote! { &#iter }
                         } else {
                             quote! { #iter }
